@@ -4,8 +4,11 @@ From V Require Import lib.Base model.Proto proofs.ProtoP proofs.ProtoTie gen.Gen
 (* 1. with every step of serving a request inside the guarded region (and the encoding of the answer guarded too), for any
       stream of requests with distinct numbers and ANY outcomes — malformed request, undecodable arguments, unknown handler,
       handler failure, unencodable result, unencodable exception — each request gets exactly one response frame bearing its
-      own number, its handler runs at most once, and nothing escapes the serving loop *)
+      own number, its handler runs at most once, and nothing escapes the serving loop. The ONE exclusion ([answerable]): a handler
+      raising SystemExit / KeyboardInterrupt on a connection whose configuration marks that class for local propagation, on a tree
+      that re-raises those (theorem 2b: that request is NOT answered; finding F26 for the default configuration) *)
 Theorem c08_exactly_one_response : forall P reqs, fully_guarded P = true -> NoDup (map fst reqs) ->
+  Forall (fun qo => answerable P (snd qo) = true) reqs ->
   forall q o, In (q, o) reqs -> responses_for q (serve_all P reqs) = 1%nat
   /\ Forall (fun r => crashed r = false /\ invoked r <= 1) (serve_all P reqs).
 Proof. exact stream_exactly_one. Qed.
@@ -21,6 +24,19 @@ Theorem c08_unencodable_exception_refuted : forall P seq, Proto.handler_in_try P
 Proof. exact unencodable_exception_refuted. Qed.
 Print Assumptions c08_unencodable_result_refuted.
 Print Assumptions c08_unencodable_exception_refuted.
+
+(* 2b. "requests whose handler fails ... the requester gets an exception and the connection remains usable" is FALSE for an exception class
+       the configuration marks for local propagation: the handler ran, no frame is sent, the exception leaves the serving loop
+       (which ends the connection). [c08_live_marked]: the current tree re-raises marked classes, and its DEFAULT configuration marks
+       KeyboardInterrupt (not SystemExit) - known finding F26 *)
+Theorem c08_marked_exception_refuted : forall P seq, Proto.handler_in_try P = true -> Proto.reraises_marked P = true ->
+  let r := serve_request P seq ORaiseMarked in sent r = [] /\ crashed r = true /\ invoked r = 1%nat.
+Proof. exact marked_exception_unanswered. Qed.
+Print Assumptions c08_marked_exception_refuted.
+Theorem c08_live_marked : Proto.reraises_marked Pgen = Gen_dispatch.reraises_marked
+  /\ (Gen_dispatch.reraises_marked = true -> Gen_dispatch.default_marks_KeyboardInterrupt = true /\ Gen_dispatch.default_marks_SystemExit = false).
+Proof. split; [reflexivity|]. vm_compute. intros _. split; reflexivity. Qed.
+Print Assumptions c08_live_marked.
 
 (* 3. routing at the requester, over any history of requests and responses: registered numbers are pairwise distinct and below
       the counter; a response invokes exactly the callback registered under its number and removes it, an unknown number
@@ -57,5 +73,7 @@ Print Assumptions c08_live.
 (* non-vacuity *)
 Example c08_stream_sample :
   responses_for 5 (serve_all std_params [(4, OBadArgs); (5, OValue false); (6, ORaise false); (7, OValue true); (8, ONoHandler)]%Z) = 1%nat
-  /\ map sent (serve_all std_params [(5, OValue false); (7, OValue true)]%Z) = [[FExc 5]; [FReply 7]]%Z.
-Proof. vm_compute. split; reflexivity. Qed.
+  /\ map sent (serve_all std_params [(5, OValue false); (7, OValue true)]%Z) = [[FExc 5]; [FReply 7]]%Z
+  /\ Forall (fun qo => answerable std_params (snd qo) = true) [(4, OBadArgs); (5, OValue false); (6, ORaise false); (7, OValue true); (8, ONoHandler)]%Z
+  /\ answerable std_params ORaiseMarked = false.
+Proof. vm_compute. repeat split; repeat constructor. Qed.
